@@ -258,6 +258,10 @@ func (l *Linter) lintInfixExpression(exp *ast.InfixExpression, ctx *context.Cont
 		if right == types.ReqBackendType {
 			right = types.BackendType
 		}
+		// An IP is compared with a STRING through the implicit STRING to IP conversion (if (client.ip == "192.0.2.1"))
+		if left == types.IPType && right == types.StringType {
+			return types.BoolType
+		}
 		// Equal operator could compare any types but both left and right type must be the same.
 		if left != right {
 			l.Error(InvalidTypeComparison(exp.GetMeta(), left, right).Match(OPERATOR_CONDITIONAL))
